@@ -30,4 +30,6 @@ _numops.generate(core.REPO, core.LEAN / "Pun/Gen/NumOpsGen.lean")
 _frechet.generate_corners(core.REPO, core.LEAN / "Pun/Gen/CornersGen.lean")
 from pv.translator import cuts as _cuts
 _cuts.generate(core.REPO, core.LEAN / "Pun/Gen/CutsGen.lean")
+from pv.translator import ctor as _ctor
+_ctor.generate(core.REPO, core.LEAN / "Pun/Gen/CtorGen.lean")
 print("generated")
